@@ -249,7 +249,10 @@ class LinearFilter(LinearFilterProperties):
                       ["d{}".format(el) for el in xrange(1, lb)]
                     ))]
       gen_func += ["  for d0 in seq:",
-                   "    m0 = {expr}".format(expr=expr),
+                   "    try:",
+                   "      m0 = {expr}".format(expr=expr),
+                   "    except StopIteration:", # A coefficient Stream has ended
+                   "      return",
                    "    yield m0"]
       gen_func += ["    m{idx} = m{idxold}".format(idx=idx, idxold=idx - 1)
                    for idx in xrange(lm, 0, -1)]
